@@ -6,8 +6,10 @@ LEVEL = 'proof'
 
 def gen(rng, cfg, k):
     dom = rng.choice([cfg.n + 2, 2 * cfg.n + 3])
-    keep = {'ins', 'insm', 'emp', 'insh', 'emph', 'insr', 'era', 'erap', 'erar', 'find', 'iter', 'eloop', 'extp', 'clr', 'mov', 'swp'}
+    keep = {'ins', 'insm', 'emp', 'insh', 'emph', 'insr', 'era', 'erap', 'erar', 'find', 'iter', 'eloop', 'extp', 'xfer', 'clr', 'mov', 'swp'}
     lines = S.gen_history(rng, cfg, 45, dom=dom, bulk_max=cfg.n + 3, ops_filter=lambda op: op in keep)
+    # node transfers: the iterator returned by insert(node) designates the inserted element or the one that prevented the insertion;
+    # a small key domain makes both outcomes frequent
     return lines
 
 def run(ctx):
@@ -16,7 +18,7 @@ def run(ctx):
     if not ok:
         n *= 3
     ctx.coverage['rule'] = ('histories of iterator-taking / iterator-returning operations on SmallSets around the N boundary: after each, the '
-                            'harness compares returned iterators with end(), dereferences them, walks begin()->end() and rbegin()->rend(), '
+                            'harness compares returned iterators with end(), dereferences them (incl. the position returned by insert(node) for inserted and refused nodes), walks begin()->end() and rbegin()->rend(), '
                             'and runs the erase-while-iterating loop with a trip limit; non-trivial = an erase(position) or an erase loop '
                             'removed the last element of a large set')
     def nontrivial(cfg, lines, obs):
